@@ -21,7 +21,7 @@ Spec == Init /\ [][Next]_l
 
 KindSet(r) == Range(r.kind)
 DocIds(r) == {r.docs[i].id : i \in DOMAIN r.docs}
-DocFn(r) == [id \in DocIds(r) |-> (CHOOSE i \in DOMAIN r.docs : r.docs[i].id = id).doc]
+DocFn(r) == [id \in DocIds(r) |-> r.docs[CHOOSE i \in DOMAIN r.docs : r.docs[i].id = id].doc]
 HitSet(r) == {[rid |-> r.hits[i].id, sub |-> r.hits[i].sub] : i \in DOMAIN r.hits}
 Expected(r) == MeaningHits(r.q, DocFn(r), KindSet(r))
 Class(r) == QClass(r.q, KindSet(r))
@@ -34,7 +34,9 @@ SnapOf(r, ids, K, acc) ==
        SnapOf(r, ids \ {id}, K, acc \o FlattenDoc(DocFn(r)[id], K, id, Len(acc)))
 AsCoded(r) == AlgHits(r.q, SnapOf(r, DocIds(r), KindSet(r), <<>>), KindSet(r))
 
-Judge(P(_)) == l <= Len(Trace) => P(Trace[l])
+\* the first line of the file is a header (so that no record is judged in the
+\* initial state, for which TLC prints no numbered counterexample)
+Judge(P(_)) == (1 < l /\ l <= Len(Trace)) => P(Trace[l])
 
 (* property clauses, one invariant each *)
 HitsAreParents == Judge(LAMBDA r : \A i \in DOMAIN r.hits : ~r.hits[i].sub)
